@@ -97,6 +97,7 @@ type GenesisOptions struct {
 	ExtraNodes         bool // entity 1 also owns node 3 (a second validator node) at genesis
 	NodeExpiration     uint64 // expiration epoch of genesis nodes (default 4)
 	NodeExpirations    []uint64 // per-node override of the expiration epoch
+	ZeroThresholds     bool     // all stake thresholds zero (tiny stakes can be elected)
 
 }
 
@@ -243,7 +244,7 @@ func Genesis(k *Keys, o GenesisOptions) (*genesis.Document, error) {
 				staking.KindRuntimeKeyManager: q(600),
 				staking.KindKeyManagerChurp:   q(700),
 			},
-			RewardSchedule: []staking.RewardStep{{Until: 1000, Scale: q(1000)}},
+			RewardSchedule: []staking.RewardStep{{Until: 1000, Scale: q(5000000)}},
 			SigningRewardThresholdNumerator:   1,
 			SigningRewardThresholdDenominator: 2,
 			CommissionScheduleRules: staking.CommissionScheduleRules{
@@ -317,6 +318,11 @@ func Genesis(k *Keys, o GenesisOptions) (*genesis.Document, error) {
 		total += 500
 	}
 	st.TotalSupply = q(total)
+	if o.ZeroThresholds {
+		for kind := range st.Parameters.Thresholds {
+			st.Parameters.Thresholds[kind] = q(0)
+		}
+	}
 	if o.NoRewards {
 		st.Parameters.RewardSchedule = nil
 		st.Parameters.RewardFactorEpochSigned = q(0)
